@@ -84,7 +84,7 @@ def random_case(prop, rng, tier):
         return {'tasks': tasks, 'filters': [], 'source': rng.choice(['tasks', 'roots', 'children0']), 'action': 'query', 'floats': False,
                 'key': rng.choice([['id_mod', rng.randrange(2, 4)], ['has', rng.choice(['prio', 'tag'])], ['leaf'], ['const', rng.random() < 0.5]])}
     return {'tasks': tasks, 'filters': fs, 'source': rng.choice(['tasks', 'roots', 'children0', 'tasks', 'preds', 'succs']),
-            'action': rng.choice(['query', 'query', 'bulk', 'remove']), 'floats': rng.random() < 0.4}
+            'action': rng.choice(['query', 'query', 'bulk', 'remove']), 'floats': rng.random() < 0.4, 'bulkKind': rng.randrange(4)}
 
 
 def build(case):
@@ -176,8 +176,12 @@ def execute(prop, case):
     rec['unchanged'] = snapshot(w, objs) == before
     rec['extra'] = True
     if matched is not None and case['action'] == 'bulk':
-        res.mark = 'M'
-        rec['extra'] = all(('mark' in o.__dict__) == (any(o is m for m in matched)) for o in objs)
+        # every task of the list gets the attribute with exactly that value (None included; a task that lacked it gets it too), no other does
+        name, val = {0: ('mark', 'M'), 1: ('mark', None), 2: ('tag', 'abc'), 3: ('flag2', None)}[case.get('bulkKind', 0)]
+        had = {id(o): (name in o.__dict__, o.__dict__.get(name)) for o in objs}
+        setattr(res, name, val)
+        rec['extra'] = all((name in o.__dict__ and o.__dict__[name] is val) if any(o is m for m in matched)
+                           else ((name in o.__dict__, o.__dict__.get(name)) == had[id(o)]) for o in objs)
     elif matched is not None and case['action'] == 'remove' and case['source'] in ('preds', 'succs'):
         # remove_all on a dependency list: exactly the matching tasks leave the list (and lose the hub on their mirror side), and are returned
         ret = src.remove_all(**kwargs)
